@@ -1,7 +1,91 @@
-//! C10: not built yet.
-use anyhow::{bail, Result};
-use serde_json::Value;
+//! C10: Mappings::remove_dummy(ns), MappingsDiff::insert_dummy_and_contract_inner_names().
+//!
+//! ops  {"op":"remove","M":tree,"t":i(1-based)} -> {ok,v}
+//!      {"op":"insert","D":diff}                 -> diff
+use anyhow::{bail, Context, Result};
+use rand::rngs::StdRng;
+use rand::{Rng, SeedableRng};
+use serde_json::{json, Value};
+use quill::tree::mappings::Mappings;
+use quill::tree::mappings_diff::MappingsDiff;
+use crate::gen_quill::*;
+use crate::proj_quill::*;
+use super::res_tree;
 
-pub fn exec(_v: &Value) -> Result<Value> { bail!("C10: driver not built") }
+fn rm<const N: usize>(v: &Value) -> Result<Value> {
+	let m: Mappings<N, Ns> = json_to_tree(&v["M"])?;
+	let t = v["t"].as_u64().context("t")? as usize;
+	let ns = v["M"]["ns"][t - 1].as_str().context("ns name")?.to_owned();
+	Ok(res_tree(m.remove_dummy(&ns)))
+}
 
-pub fn gen(_seed: u64, _n: usize) -> Result<Vec<Value>> { bail!("C10: driver not built") }
+pub fn exec(v: &Value) -> Result<Value> {
+	match v["op"].as_str().context("op")? {
+		"remove" => match v["M"]["ns"].as_array().map(|a| a.len()) {
+			Some(2) => rm::<2>(v), Some(3) => rm::<3>(v), Some(4) => rm::<4>(v),
+			n => bail!("unsupported N {n:?}"),
+		},
+		"insert" => {
+			let d = json_to_diff(&v["D"])?;
+			match d.insert_dummy_and_contract_inner_names() {
+				Ok(r) => Ok(diff_to_json(&r)),
+				Err(_) => Ok(json!({"ok": false})),
+			}
+		},
+		op => bail!("C10: unknown op {op}"),
+	}
+}
+
+const PH: &[(&str, &[&str])] = &[
+	("c", &["C_12", "net/minecraft/unmapped/C_7", "pkg/C_1", "C", "xC_2", "real/Name", "C_"]),
+	("f", &["f_1", "f_", "af_", "xf_3", "field", "f"]),
+	("m", &["m_1", "m_", "<init>", "<clinit>", "am_", "method", "xm_2"]),
+	("p", &["p_0", "p_", "ap_", "param", "xp_1"]),
+];
+
+fn ph_name(r: &mut StdRng, kind: &str, uniq: usize) -> String {
+	let pool = PH.iter().find(|(k, _)| *k == kind).map(|(_, p)| *p).unwrap_or(&["x"]);
+	let n = *pick(r, pool);
+	if n.starts_with('<') || r.gen_bool(0.5) { n.to_owned() } else { format!("{n}{uniq}") }
+}
+
+/// replaces the names of namespace t (0-based) by a mix of placeholder-like and real names
+fn dummify(r: &mut StdRng, n: &mut Value, t: usize, ctr: &mut usize) {
+	if let Some(Value::Object(k)) = n.get_mut("kids") {
+		for (_, c) in k.iter_mut() {
+			*ctr += 1;
+			let kind = c["kind"].as_str().unwrap_or("").to_owned();
+			if r.gen_bool(0.7) {
+				let nm = if r.gen_bool(0.1) { String::new() } else { ph_name(r, &kind, *ctr) };
+				if t > 0 || kind == "p" { c["names"][t] = json!(nm); }
+			}
+			if r.gen_bool(0.6) { c["doc"] = json!([]); }
+			dummify(r, c, t, ctr);
+		}
+	}
+}
+
+pub fn gen(seed: u64, n: usize) -> Result<Vec<Value>> {
+	let mut r = StdRng::seed_from_u64(seed ^ 0xC10);
+	let mut out = vec![];
+	while out.len() < n {
+		let nn = *pick(&mut r, &[2usize, 2, 3, 4]);
+		let cfg = TreeCfg { n: nn, classes: r.gen_range(0..14), p_missing: 0.1, unicode: r.gen_bool(0.2), param_src: r.gen_bool(0.3), ..TreeCfg::default() };
+		let mut m = gen_tree(&mut r, &cfg);
+		let t = r.gen_range(2..=nn);
+		let mut ctr = 0;
+		dummify(&mut r, &mut m, t - 1, &mut ctr);
+		out.push(json!({"op": "remove", "M": m, "t": t}));
+		// diff side: the real diff of two related two-namespace trees, with removals and additions in it
+		let cfg2 = TreeCfg { n: 2, classes: r.gen_range(0..10), p_missing: 0.0, ..TreeCfg::default() };
+		let a = gen_tree(&mut r, &cfg2);
+		let mut b = a.clone();
+		for _ in 0..r.gen_range(1..4) { edit_tree(&mut r, &cfg2, &mut b, 1, false); }
+		let (am, bm): (Mappings<2, Ns>, Mappings<2, Ns>) = (json_to_tree(&a)?, json_to_tree(&b)?);
+		if let Ok(d) = MappingsDiff::diff(&am, &bm) {
+			out.push(json!({"op": "insert", "D": diff_to_json(&d)}));
+		}
+	}
+	out.truncate(n);
+	Ok(out)
+}
